@@ -169,6 +169,11 @@ def build(prog):
         row = ev.get(X, 0, k)
         f = ev.loop_sum(row * row, k)
         g = ev.loop_concatenate(ev.InsertAxis(ev.Sum(row), k + 1), k)
+        if prog.get('constbody'):
+            # loops whose BODY is free of arguments while their length is not: they are not constants
+            C = const((n + 1, m))
+            crow = ev.get(C, 0, k)
+            return (f, g, ev.loop_sum(crow * crow, k), ev.loop_concatenate(crow, k)), args
         return (f, g), args
     if fam == 'P19':  # two consecutive outer loops of different length sharing one accumulator chain, plus a loop whose result feeds an index
         n2 = int(prog.get('n2', 3))
@@ -222,6 +227,7 @@ def gen_prog(rng, families, small=False):
         prog['L'] = rng.choice([1, 2, 4, 6])
     if fam == 'P18':
         prog['nrun'] = rng.randint(0, prog['n'])
+        prog['constbody'] = rng.random() < 0.5
     if fam == 'P21':
         prog['n'] = max(prog['n'], 1)
         prog['nrun'] = min(prog['n'], rng.choice([0, 1, 1, 1, 2, prog['n']]))
